@@ -4,7 +4,8 @@ Model: lean/HydroVerif/Model/C07.lean; lemmas: Lemmas/C07Grid.lean, Lemmas/C07Co
 theorems: lean/HydroVerif/Props/C07.lean.
 Correspondence (bit-exact, Float instance of the model vs the real code through the Python API on the
 freshly built extension): `Grid.cell2rowcol`, `Grid.neighbours`, `Grid.cell2coord`, `Grid.coord2cell`,
-`Grid.xvalues / yvalues / xlim / ylim`. The exact (`Rat`) instance of the model — the one the theorems are
+`Grid.xvalues / yvalues / xlim / ylim`, and the raw helper `getnxy` (ctypes, any sign of its arguments: the
+integer core shared with the C06/C11/C16 models). The exact (`Rat`) instance of the model — the one the theorems are
 about — is compared with the code on every point / cell inside the property's conditioning region.
 Oracle (failing-input search, on the real code only, exact rationals, independent of the model):
 floor-based geometry of the footprints, brute-force (row, col) neighbour table, symmetry / mirror,
@@ -378,6 +379,25 @@ def body(ctx):
         n = gd["nrows"] * gd["ncols"]
         run_geometry(ctx, st, gd["nrows"], gd["ncols"], float(gd["xll"]), float(gd["yll"]), float(gd["csz"]),
                      [c for c in cells if 0 <= c < n], [c for c in cells if not 0 <= c < n], pts, origin="corpus")
+
+    # ---- the raw helper getnxy (shared integer core used by the C06/C11/C16 models): C truncated % and /,
+    #      any sign of cell number and ncols (ncols = 0 is a SIGFPE in C and is not called)
+    import ctypes
+    kern = ctypes.CDLL(str(ctx.native / "libhykern.so"))
+    kern.getnxy.restype = ctypes.c_longlong
+    kern.getnxy.argtypes = [ctypes.c_longlong, ctypes.c_longlong, ctypes.POINTER(ctypes.c_longlong)]
+    buf = (ctypes.c_longlong * 2)()
+    for it in range(ctx.scale(120, 1200)):
+        nc = rng.choice([1, 2, 3, 7, -1, -3]) if it < 12 else rng.choice([-1, 1]) * rng.randint(1, 40)
+        cs = [0, 1, -1, nc, -nc, nc - 1, nc + 1] + [rng.randint(-2000, 2000) for _ in range(20)]
+        out = []
+        for c in cs:
+            kern.getnxy(nc, c, buf)
+            out.append((int(buf[0]), int(buf[1])))
+            ctx.count(("getnxy", nc, c), c >= 0 and nc > 0, "getnxy/" + ("nonneg" if c >= 0 and nc > 0 else "signed"))
+            if c >= 0 and nc > 0 and (out[-1][1], out[-1][0]) != divmod(c, nc):
+                ctx.finding("getnxy/wrong_rowcol", "getnxy is not (cell mod ncols, cell div ncols)", {"ncols": nc, "cell": c, "got": list(out[-1])})
+        st.add(f"getnxy {nc} {C.ilist(cs)}", pairs_tok(out, str), {"fn": "getnxy", "ncols": nc})
 
     # ---- generated geometries
     ngeom = ctx.scale(300, 3000)
